@@ -223,3 +223,130 @@ def witness_not_included(a, b):
                     nxt.append(t)
         work = nxt
     return None
+
+
+# ------------------------------------------------------------------ catastrophic backtracking
+def redos_witness(pattern: str):
+    """a sub-pattern whose shape makes Python's backtracking matcher take exponential time on a non-matching subject: an unbounded repetition whose body contains
+    another unbounded repetition over characters the body can also start with, followed only by optional items (`(\\d+x?)+`), or whose body can match the empty
+    string (`(a*)*`).  Returns a description or None.  (A sufficient shape test, not a decision procedure for ambiguity.)"""
+    import re
+    try:
+        import re._parser as sp
+        import re._constants as sc
+    except ImportError:  # pragma: no cover
+        import sre_parse as sp
+        import sre_constants as sc
+    try:
+        tree = sp.parse(pattern)
+    except re.error:
+        return None
+    ALL = frozenset(range(128))
+
+    def cat(c):
+        n = str(c)
+        base = {"CATEGORY_DIGIT": frozenset(range(48, 58)), "CATEGORY_SPACE": frozenset({9, 10, 11, 12, 13, 32}),
+                "CATEGORY_WORD": frozenset(list(range(48, 58)) + list(range(65, 91)) + list(range(97, 123)) + [95])}
+        for k, v in base.items():
+            if n.endswith(k):
+                return v
+            if n.endswith(k.replace("CATEGORY_", "CATEGORY_NOT_")):
+                return ALL - v
+        return ALL
+
+    def chars(item):
+        op, av = item
+        if op == sc.LITERAL:
+            return frozenset({av}) & ALL
+        if op == sc.NOT_LITERAL:
+            return ALL - {av}
+        if op == sc.ANY:
+            return ALL - {10}
+        if op == sc.CATEGORY:
+            return cat(av)
+        if op == sc.IN:
+            out, neg = set(), False
+            for o2, a2 in av:
+                if o2 == sc.NEGATE:
+                    neg = True
+                elif o2 == sc.LITERAL:
+                    out.add(a2)
+                elif o2 == sc.RANGE:
+                    out |= set(range(a2[0], min(a2[1], 127) + 1))
+                elif o2 == sc.CATEGORY:
+                    out |= cat(a2)
+            return (ALL - out) if neg else frozenset(out) & ALL
+        return None
+
+    def seq_of(av):
+        return list(av) if av is not None else []
+
+    def nullable(item):
+        op, av = item
+        if op in (sc.MAX_REPEAT, sc.MIN_REPEAT):
+            return av[0] == 0 or all(nullable(x) for x in seq_of(av[2]))
+        if op == sc.SUBPATTERN:
+            return all(nullable(x) for x in seq_of(av[3]))
+        if op == sc.BRANCH:
+            return any(all(nullable(x) for x in seq_of(alt)) for alt in av[1])
+        if op == sc.AT:
+            return True
+        return False
+
+    def first(items):
+        out = set()
+        for it in items:
+            op, av = it
+            if op in (sc.MAX_REPEAT, sc.MIN_REPEAT):
+                out |= first(seq_of(av[2]))
+            elif op == sc.SUBPATTERN:
+                out |= first(seq_of(av[3]))
+            elif op == sc.BRANCH:
+                for alt in av[1]:
+                    out |= first(seq_of(alt))
+            else:
+                c = chars(it)
+                out |= (c if c is not None else set())
+            if not nullable(it):
+                break
+        return out
+
+    def flat(items):
+        """top-level sequence with plain groups opened"""
+        out = []
+        for it in items:
+            if it[0] == sc.SUBPATTERN:
+                out += flat(seq_of(it[1][3]))
+            else:
+                out.append(it)
+        return out
+
+    def walk(items):
+        for it in items:
+            op, av = it
+            if op in (sc.MAX_REPEAT, sc.MIN_REPEAT):
+                lo, hi, sub = av
+                body = flat(seq_of(sub))
+                if hi == sc.MAXREPEAT or hi > 64:
+                    if body and all(nullable(x) for x in body):
+                        return "an unbounded repetition of a body that can match the empty string"
+                    for k, inner in enumerate(body):
+                        if inner[0] in (sc.MAX_REPEAT, sc.MIN_REPEAT) and (inner[1][1] == sc.MAXREPEAT or inner[1][1] > 64):
+                            s_in = first(seq_of(inner[1][2]))
+                            if all(nullable(x) for x in body[k + 1:]) and all(nullable(x) for x in body[:k]) | True and (first(body) & s_in):
+                                if all(nullable(x) for x in body[k + 1:]):
+                                    return "an unbounded repetition nested in an unbounded repetition, followed only by optional items, over overlapping characters (e.g. `(\\d+x?)+`)"
+                r = walk(seq_of(sub))
+                if r:
+                    return r
+            elif op == sc.SUBPATTERN:
+                r = walk(seq_of(av[3]))
+                if r:
+                    return r
+            elif op == sc.BRANCH:
+                for alt in av[1]:
+                    r = walk(seq_of(alt))
+                    if r:
+                        return r
+        return None
+    return walk(list(tree))
